@@ -948,7 +948,11 @@ func makeHTTPTypeRecursive(att *expr.AttributeExpr, seen map[string]struct{}) *e
 					att.Validation.Merge(v)
 				}
 			}
-			att.DefaultValue = dt.Attribute().DefaultValue
+			if att.DefaultValue == nil {
+				// the default declared on the attribute wins over the
+				// default declared on the alias type
+				att.DefaultValue = dt.Attribute().DefaultValue
+			}
 		}
 		if _, ok := seen[dt.ID()]; ok {
 			return att
